@@ -196,9 +196,43 @@ func runCheck(def *CheckDef, flags map[string]string) int {
 		logDir = crossDir
 		defer os.RemoveAll(crossDir)
 	}
+	// Thorough tiers explore under a wall-clock budget (VERIF_BUDGET_S, default 420 s of
+	// exploration): jobs are taken in a seeded random order and the ones not started when
+	// the budget is used up are reported as not run - never as covered.
+	budget := 0
+	if tier == "thorough" {
+		budget = 420
+	}
+	if v, err := strconv.Atoi(os.Getenv("VERIF_BUDGET_S")); err == nil && v >= 0 {
+		budget = v
+	}
+	if budget > 0 {
+		brng := rand.New(rand.NewSource(seed + 77))
+		brng.Shuffle(len(run.jobs), func(i, j int) { run.jobs[i], run.jobs[j] = run.jobs[j], run.jobs[i] })
+		engine.ExploreDeadline = time.Now().Add(time.Duration(budget) * time.Second)
+	}
 	res, stats, err := engine.RunJobs(p, run.jobs, nworkers(), backend, true, logDir)
 	if err != nil {
 		return fail(3, "engine: "+err.Error())
+	}
+	if budget > 0 {
+		notRun := 0
+		var kj []*engine.Job
+		var kr []*engine.JobResult
+		for i, r := range res {
+			if r == nil {
+				notRun++
+				continue
+			}
+			kj = append(kj, run.jobs[i])
+			kr = append(kr, r)
+		}
+		run.jobs, res = kj, kr
+		run.extra["time_budget"] = map[string]interface{}{"exploration_budget_s": budget, "jobs_run": len(kj), "jobs_not_run": notRun,
+			"note": "jobs are started in a seeded random order until the budget is used up; jobs not started are outside this run's claim"}
+		if notRun > 0 {
+			fmt.Printf("note: %d of %d jobs not started within the %d s exploration budget (reported in the evidence, not counted as covered)\n", notRun, notRun+len(kj), budget)
+		}
 	}
 	run.results, run.stats = res, stats
 	if crossDir != "" {
